@@ -139,3 +139,28 @@ func fillReferences(v reflect.Value) {
 		}
 	}
 }
+
+// emptyWithCapacity replaces every settable slice reachable through *p by an empty slice that has
+// spare capacity (len 0, cap 4): nothing to copy element-wise, yet an append through one holder
+// writes into storage another holder's append would use.
+func emptyWithCapacity(v reflect.Value) {
+	switch v.Kind() {
+	case reflect.Ptr:
+		if v.Type() != locationType && !v.IsNil() {
+			emptyWithCapacity(v.Elem())
+		}
+	case reflect.Slice:
+		if v.CanSet() {
+			v.Set(reflect.MakeSlice(v.Type(), 0, 4))
+		}
+	case reflect.Struct:
+		if immutable(v.Type()) {
+			return
+		}
+		for i := 0; i < v.NumField(); i++ {
+			if v.Field(i).CanSet() {
+				emptyWithCapacity(v.Field(i))
+			}
+		}
+	}
+}
